@@ -5,6 +5,7 @@ package sims
 
 import (
 	"crypto/x509"
+	"crypto/x509/pkix"
 	"fmt"
 	"strings"
 	"sync"
@@ -31,10 +32,16 @@ type Shape struct {
 	LongSerial bool     // 151-octet serial: forces the OCSP POST encoding
 	NoCRLSign  bool     // (CAs) key usage certSign only
 	NoEKU      bool     // (leaf) no extended-key-usage extension at all
+	// Expired: the certificate's validity ended in 2010 (a signature made and
+	// time-stamped while it was valid is checked long afterwards)
+	Expired bool
+	// FreshestDNS: the certificate's freshest-CRL extension names its location by
+	// a dNSName instead of a URI (it is a freshest-CRL pointer all the same)
+	FreshestDNS bool
 }
 
 func (s Shape) key() string {
-	return fmt.Sprintf("%s|%s|%v|%v|%v|%v|%v", strings.Join(s.OCSP, ","), strings.Join(s.CRL, ","), s.Freshest, s.LongSerial, s.NoCRLSign, s.NoEKU, s.CDPGrouped)
+	return fmt.Sprintf("%s|%s|%v|%v|%v|%v|%v|%v|%v", strings.Join(s.OCSP, ","), strings.Join(s.CRL, ","), s.Freshest, s.LongSerial, s.NoCRLSign, s.NoEKU, s.CDPGrouped, s.Expired, s.FreshestDNS)
 }
 
 // HTTPShape returns a shape with nO http responders and nC http points.
@@ -217,6 +224,18 @@ func (f *Family) spec(pos int, s Shape) *pki.Cert {
 	}
 	if s.LongSerial {
 		c.Serial = pki.LongSerial(151)
+	}
+	if s.Expired {
+		c.NotBefore, c.NotAfter = pki.Past, time.Date(2010, 1, 1, 0, 0, 0, 0, time.UTC)
+	}
+	if s.FreshestDNS && !s.Freshest {
+		// SEQUENCE { DistributionPoint { [0] { [0] { dNSName "fresh.test" } } } }
+		name := "fresh.test"
+		gn := append([]byte{0x82, byte(len(name))}, name...)
+		full := append([]byte{0xa0, byte(len(gn))}, gn...)
+		dpn := append([]byte{0xa0, byte(len(full))}, full...)
+		dp := append([]byte{0x30, byte(len(dpn))}, dpn...)
+		c.Extra = append(c.Extra, pkix.Extension{Id: pki.OIDFreshestCRL, Value: append([]byte{0x30, byte(len(dp))}, dp...)})
 	}
 	return c
 }
